@@ -338,7 +338,7 @@ func addTarget(run *vlib.Run, font, ent string, ks []int, labels ...string) {
 	}
 	run.Extra["file_len:"+font+"/"+ent] = len(t.file)
 	run.Extra["write_calls:"+font+"/"+ent] = len(t.sizes)
-	for _, style := range []string{"budget", "short"} {
+	for _, style := range []string{"budget", "short", "eager"} {
 		for _, part := range chunkInts(ks, 256) {
 			line := t.line(style, part)
 			obs, fail, sig := t.runLine(style, part)
@@ -754,7 +754,7 @@ func Gen(run *vlib.Run, seed uint64, tier string) {
 		ts := randTabs(r)
 		scaler := vlib.Pick(r, []uint32{header.ScalerTypeTrueType, header.ScalerTypeCFF, header.ScalerTypeApple})
 		var file []byte
-		for _, style := range []string{"budget", "short"} {
+		for _, style := range []string{"budget", "short", "eager"} {
 			free := runWrite("none", 0, func(w io.Writer) (int64, bool, error) {
 				n, err := header.Write(w, scaler, mkMap(ts))
 				return n, true, err
